@@ -141,7 +141,8 @@ def run(tier):
         return int(c.args[0][2:]) + 3          # main, reader, writer, W workers
     ex.run_priorities(nthreads, cells=[c for c in ex.cells if nthreads(c) <= (5 if quick else 6)])
     # ... and with one priority-change point anywhere in the run (copy pipeline: two), for the small cells
-    pc_cells = [c for c in ex.cells if nthreads(c) <= 5 and 'tiny' not in c.desc]
+    pc_cells = [c for c in ex.cells if 'tiny' not in c.desc and
+                (nthreads(c) <= 5 or (not quick and nthreads(c) == 6 and c.leg.startswith('compress') and len(c.data) <= 200000))]
     if quick:
         pick = ("shape='ZE' W=2", "shape='EZ' W=2", 'stream=3blk W=2 gran=in32/out40000', 'stream=2streams W=2 gran=stock', 'copy n=70000')
         pc_cells = [c for c in pc_cells if any(c.desc.startswith(x) or c.desc == x for x in pick)]
